@@ -801,9 +801,43 @@ pub struct FileOut {
     pub hash: Option<[u8; 32]>,
 }
 
+/// which history of configuration calls a key list gets (a function of the keys: the same case, the same history)
+fn reader_history(keys: &[StaticSecret]) -> u64 {
+    let mut b = Vec::with_capacity(keys.len() * 32 + 1);
+    for k in keys {
+        b.extend_from_slice(&k.to_bytes());
+    }
+    util::hash64(&b)
+}
+
+/// The candidate keys reach the configuration in one call, one call per key (what the C interface does), in two
+/// calls, or after a call with an empty list: the resulting configuration must be the same.
+fn add_keys_via(c: &mut ArchiveReaderConfig, keys: &[StaticSecret], h: u64) {
+    match h % 4 {
+        0 => {
+            c.add_private_keys(keys);
+        }
+        1 => {
+            for k in keys {
+                c.add_private_keys(std::slice::from_ref(k));
+            }
+        }
+        2 => {
+            let m = keys.len() / 2;
+            c.add_private_keys(&keys[..m]);
+            c.add_private_keys(&keys[m..]);
+        }
+        _ => {
+            c.add_private_keys(&[]);
+            c.add_private_keys(keys);
+            c.add_private_keys(&[]);
+        }
+    }
+}
+
 pub fn reader_config(keys: &[StaticSecret]) -> ArchiveReaderConfig {
     let mut c = ArchiveReaderConfig::new();
-    c.add_private_keys(keys);
+    add_keys_via(&mut c, keys, reader_history(keys));
     c
 }
 
@@ -920,11 +954,22 @@ impl RepairErr {
 /// Repair `src` (any Read) into a layer-less archive and read it back with the normal reader.
 pub fn repair_from<R: Read>(src: R, keys: &[StaticSecret], authenticated: bool) -> Result<RepairOut, RepairErr> {
     let r = util::catch(|| {
-        let mut cfg = reader_config(keys);
-        if authenticated {
-            cfg.failsafe_return_only_authenticated_data();
+        // the repair mode is chosen before or after the keys are given
+        let h = reader_history(keys);
+        let mut cfg = ArchiveReaderConfig::new();
+        let set_mode = |cfg: &mut ArchiveReaderConfig| {
+            if authenticated {
+                cfg.failsafe_return_only_authenticated_data();
+            } else {
+                cfg.failsafe_return_data_even_unauthenticated();
+            }
+        };
+        if (h >> 8) % 2 == 0 {
+            add_keys_via(&mut cfg, keys, h);
+            set_mode(&mut cfg);
         } else {
-            cfg.failsafe_return_data_even_unauthenticated();
+            set_mode(&mut cfg);
+            add_keys_via(&mut cfg, keys, h);
         }
         let mut fs = ArchiveFailSafeReader::from_config(src, cfg).map_err(|e| RepairErr::FromConfig(format!("{e:?}")))?;
         let mut wcfg = ArchiveWriterConfig::new();
